@@ -121,7 +121,7 @@ pub fn replay(cases: &[J]) -> J {
         };
         let jpath = dir.join("joined.log");
         write_lines(&jpath, case["jlines"].as_array().unwrap());
-        let query = sql::statement(&case["q"], jpath.to_str().unwrap());
+        let query = sql::statement_for(&case["q"], jpath.to_str().unwrap(), case["tdef"].as_str().unwrap());
         let exp_status = case["status"].as_str().unwrap();
         let devs: Vec<String> = case["fired"].as_array().map(|a| a.iter().map(|d| d.as_str().unwrap().to_string()).collect()).unwrap_or_default();
         let key = format!("{}|{}|{}|{}|{}|{}", case["tdef"], query, case["files"], case["jlines"], case["mode"], case["intr"]);
@@ -164,8 +164,10 @@ pub fn replay(cases: &[J]) -> J {
             let lines: Vec<&J> = case["files"].as_array().unwrap().iter().flat_map(|f| f.as_array().unwrap().iter()).collect();
             let steps = case["steps"].as_array().unwrap();
             let res = std::panic::catch_unwind(std::panic::AssertUnwindSafe(|| {
-                let mut engine = ExecutionEngine::new(&tables, &stmt);
                 let mut obs = Vec::new();
+                let mut engine = if case["q"]["join"] == "none" { ExecutionEngine::new(&tables, &stmt) } else {
+                    match ExecutionEngine::with_executed_joined_table(&tables, &stmt) { Ok(e) => e, Err(_) => { obs.push(json!({"st": "err", "recs": []})); return obs; } }
+                };
                 for l in &lines {
                     match engine.execute(sql::line_text(l), &ExecutionConfig::default()) {
                         Ok(out) => match out.result_row {
